@@ -23,7 +23,20 @@ def run(tier):
         c = runs.gen_config(rng, 7000 + i, tier)
         c.update(eps=0, scale=1.0, limit=4, P=1, mp=False, readonly=False)
         run_cfgs.append({"fn": "fullrun", "cfg": c})
-    batch = assign_cases + ll_cases + run_cfgs
+    # tables whose values are NOT exactly representable (decimal ties such as 0.1 + 0.2 vs 0.3) and tables with a
+    # NaN column (the library produces those itself for an indefinite MRF): compared across modes only
+    raw_cases = []
+    for i in range(20 if tier == "quick" else 200):
+        T, K = rng.randint(5, 60), rng.randint(2, 5)
+        step = rng.choice(["0.1", "0.3", "0.7"])
+        cost = [[repr(round(rng.randint(0, 6) * float(step), 10)) for _ in range(K)] for _ in range(T)]
+        if i % 4 == 3:
+            col = rng.randrange(K)
+            for t in range(rng.randrange(T), T):
+                cost[t][col] = "nan"
+        beta = step if i % 3 else [repr(round(rng.randint(0, 3) * float(step), 10)) for _ in range(T)]
+        raw_cases.append({"fn": "assign_raw", "cost": cost, "beta": beta})
+    batch = assign_cases + ll_cases + run_cfgs + raw_cases
     variants = [("nojit", None), ("nonumba", None)] + [("jit", t) for t in THREADS]
     with cf.ThreadPoolExecutor(max_workers=len(variants)) as ex:
         outs = list(ex.map(lambda v: modes.run_cases(batch, v[0], threads=v[1], timeout=3000), variants))
@@ -89,6 +102,16 @@ def run(tier):
             evs.append({"key": f"run{ri}", "dig": d, "completed": True, "mode": mode, "threads": thr or 0,
                         "rounds": r["rounds"]})
         memo.append({"pid": "C15", "clause": "complete_runs_return_the_same_labels_in_every_mode", "events": evs})
+    nr0 = na + nl + len(run_cfgs)
+    for qi, c in enumerate(raw_cases):
+        evs = []
+        for (mode, thr), res in zip(variants, outs):
+            r = res[nr0 + qi]
+            done = "error" not in r
+            d = hashlib.sha256(repr((r.get("labels"), r.get("reported"))).encode()).hexdigest()[:16] if done else "raised"
+            evs.append({"key": f"raw{qi}", "dig": d, "completed": done, "mode": mode, "threads": thr or 0})
+        memo.append({"pid": "C15", "clause": "labelling_kernel_same_labels_and_cost_in_every_mode_on_inexact_or_nan_tables",
+                     "events": evs})
     acc3, fail3, res3 = tracecheck.validate("TraceMemo", memo, {"C15"})
     for r in res3:
         rep.add_tlc(r)
